@@ -60,6 +60,12 @@ CLAIMED = {
             "values must be real scalars also for empty annotations.",
             "Bounds: <=2+2 items routing, <=2+1 semantic (quick); all tasks except separation; documented key lists/forced parameters transcribed into the "
             "harness; p_score/information_gain/karaoke metric stubbed in semantic mode. Two genuine defects fixed (thres spelling, tuple returns).", "5 (C03)"),
+    "C10": ("Layer 1: live CHORD_RE translated from its sre parse tree into a z3 regex and compared with the documented Harte grammar, both inclusions "
+            "decided by z3 for strings of unbounded length. Layer 2: an arbitrary symbolic string of length <= L through the real validate/split/join/"
+            "encode(all flags)/encode_many: only InvalidChordException, encoding invariant, sentinels, split/join round trip, strict-bass behaviour. "
+            "Layer 3: every accepted label re-encoded by an independent table-driven reference encoder (plus a 121-label concrete pool).",
+            "Bounds: L <= 3 quick / <= 5 thorough over code points 9..126 (layer 1 unbounded); regex membership and table look-ups are solver atoms; "
+            "layer 3 is solver-driven enumeration of the accepted labels. One genuine defect fixed ('$' anchor).", "5 (C10)"),
 }
 
 NA_REASON = "check not built yet in this revision (planned; see DESIGN.md section 5)"
